@@ -46,11 +46,12 @@ def case_strategy(draw, tier):
     for _ in range(n):
         kind = draw(st.sampled_from(["p2g", "g2p_power_led", "g2p_gas_led", "g2g"] if ngas == 2 else ["p2g", "g2p_power_led", "g2p_gas_led"]))
         vec = draw(st.integers(0, 2)) == 0
-        k = 2 if vec else 1
+        k = draw(st.sampled_from([2, 2, 3])) if vec else 1
         ctrls.append({"kind": kind, "vector": vec, "eff": draw(f(0.05, 1.0)), "values": [draw(f(0.05, 3.0)) for _ in range(k)],
                       "scalings": [draw(st.sampled_from([1.0, 1.0, 0.5, 2.0])) for _ in range(k)], "order": draw(st.integers(0, 2)),
                       "level": draw(st.sampled_from([0, 0, 1])), "gas": draw(st.integers(0, ngas - 1)),
-                      "jsel": [draw(st.integers(0, 20)) for _ in range(k)]})
+                      "jsel": [draw(st.integers(0, 20)) for _ in range(k)],
+                      "perm": draw(st.permutations(list(range(k))))})
     chain = ngas == 2 and draw(st.integers(0, 3)) == 0
     ts = draw(st.integers(0, 2)) == 0
     prof = None
@@ -98,6 +99,7 @@ def evaluate(case):
             li = [int(ppow.create_load(pw, buses[(ci + i) % 4], p_mw=c["values"][i] * 0.03, scaling=c["scalings"][i])) for i in range(k)]
             si = [int(pp.create_source(gnet, jpick(g, c["jsel"][i]), 0.0)) for i in range(k)]
             first_load = first_load if first_load is not None else li[0]
+            li, si = [li[i] for i in c["perm"]], [si[i] for i in c["perm"]]
             P2GControlMultiEnergy(mn, li if c["vector"] else li[0], si if c["vector"] else si[0], c["eff"], name_gas_net=gname, **kw)
             for a, b in zip(li, si):
                 expect.append(("p2g", (gname, "source", b, "mdot_kg_per_s"),
@@ -105,6 +107,7 @@ def evaluate(case):
         elif c["kind"] == "g2p_power_led":
             gi = [int(ppow.create_sgen(pw, buses[(ci + i) % 4], p_mw=c["values"][i] * 0.03, scaling=c["scalings"][i])) for i in range(k)]
             ki = [int(pp.create_sink(gnet, jpick(g, c["jsel"][i]), 0.0)) for i in range(k)]
+            gi, ki = [gi[i] for i in c["perm"]], [ki[i] for i in c["perm"]]
             G2PControlMultiEnergy(mn, gi if c["vector"] else gi[0], ki if c["vector"] else ki[0], c["eff"], name_gas_net=gname,
                                   element_type_power="sgen", calc_gas_from_power=True, **kw)
             for a, b in zip(gi, ki):
@@ -114,6 +117,7 @@ def evaluate(case):
             gi = [int(ppow.create_sgen(pw, buses[(ci + i) % 4], p_mw=0.0)) for i in range(k)]
             ki = [int(pp.create_sink(gnet, jpick(g, c["jsel"][i]), c["values"][i] * 0.01, scaling=c["scalings"][i])) for i in range(k)]
             first_sink = first_sink if first_sink is not None else (g, ki[0])
+            gi, ki = [gi[i] for i in c["perm"]], [ki[i] for i in c["perm"]]
             G2PControlMultiEnergy(mn, gi if c["vector"] else gi[0], ki if c["vector"] else ki[0], c["eff"], name_gas_net=gname,
                                   element_type_power="sgen", calc_gas_from_power=False, **kw)
             for a, b in zip(gi, ki):
@@ -124,6 +128,7 @@ def evaluate(case):
             ki = [int(pp.create_sink(gnet, jpick(g, c["jsel"][i]), c["values"][i] * 0.01, scaling=c["scalings"][i])) for i in range(k)]
             si = [int(pp.create_source(gnets[g2], jpick(g2, c["jsel"][i]), 0.0)) for i in range(k)]
             first_sink = first_sink if first_sink is not None else (g, ki[0])
+            ki, si = [ki[i] for i in c["perm"]], [si[i] for i in c["perm"]]
             GasToGasConversion(mn, ki if c["vector"] else ki[0], si if c["vector"] else si[0], c["eff"], name_gas_net_from=gname,
                                name_gas_net_to=names[g2], **kw)
             for a, b in zip(ki, si):
@@ -266,6 +271,8 @@ def evaluate(case):
                     break
             if f:
                 break
+    if any(c["vector"] and list(c["perm"]) != sorted(c["perm"]) for c in case["controllers"]):
+        labels.add("vector_indices_not_ascending")
     nontriv = len(kinds - {"chain"}) >= 2 or any(c["vector"] for c in case["controllers"]) or steps or case["chain"]
     return Outcome(findings=f, labels=labels, nontrivial=bool(nontriv), sample=_sample(case))
 
